@@ -666,7 +666,8 @@ func genToken(c *Ctx) {
 			"exp":   {basicnode.NewInt(9007199254740991), basicnode.NewInt(9007199254740992), basicnode.NewInt(-9007199254740991), basicnode.NewUint(1 << 63), basicnode.NewInt(0)},
 			"iat":   {basicnode.NewInt(9007199254740992), basicnode.NewUint(math.MaxUint64), basicnode.NewInt(-9007199254740992)},
 			"nonce": {basicnode.NewBytes(nil), basicnode.NewBytes(bytes.Repeat([]byte{1}, 11)), basicnode.NewBytes(bytes.Repeat([]byte{1}, 13)), basicnode.NewBytes(bytes.Repeat([]byte{1}, 1))},
-			"cmd":   {basicnode.NewString("a"), basicnode.NewString("/A"), basicnode.NewString("/a/"), basicnode.NewString(""), basicnode.NewString("/"), basicnode.NewString("//")},
+			"cmd": {basicnode.NewString("a"), basicnode.NewString("/A"), basicnode.NewString("/a/"), basicnode.NewString(""), basicnode.NewString("/"), basicnode.NewString("//"),
+				basicnode.NewString("/é"), basicnode.NewString("/É"), basicnode.NewString("/crud/Écrire"), basicnode.NewString("/Ω"), basicnode.NewString("/ǅ"), basicnode.NewString("/Ⅳ"), basicnode.NewString("/ほげ")},
 			"iss":   {basicnode.NewString("did:key:z"), basicnode.NewString("did:web:example.com"), basicnode.NewString(""), basicnode.NewString(aud)},
 			"aud":   {basicnode.NewString("did:key:zabc"), basicnode.NewString("")},
 			"sub":   {basicnode.NewString("not-a-did"), basicnode.NewString("")},
@@ -741,7 +742,7 @@ func genToken(c *Ctx) {
 		add(func(s *spec) {})
 		add(func(s *spec) { s.issDef = false })
 		add(func(s *spec) { s.otherDef = false })
-		for _, cm := range []string{"/", "/a", "a", "", "/A", "/a/", "//", "/a//b", "/é"} {
+		for _, cm := range []string{"/", "/a", "a", "", "/A", "/a/", "//", "/a//b", "/é", "/É", "/crud/Écrire", "/Ω", "/ǅ", "/Ⅳ", "/ほげ", "/\xff"} {
 			cm := cm
 			if cm == "/é" {
 				continue // non-ASCII case mapping is outside the model
